@@ -70,7 +70,20 @@ pub fn gen_scn(seed: u64, corpus: &[world::CorpusProgram]) -> Scn {
                 let c = r.pick(corpus);
                 c.files.iter().find(|f| f.0 == c.entry).map(|f| f.1.clone()).unwrap_or_default()
             }
-            5 => if r.chance(1, 2) { r.pick(&DEGENERATE).to_string() } else { r.pick(&DOCSTRINGS).to_string() },
+            5 => match r.below(5) {
+                0 | 1 => r.pick(&DEGENERATE).to_string(),
+                2 | 3 => r.pick(&DOCSTRINGS).to_string(),
+                _ => {
+                    // deep block nesting (indentation far to the right)
+                    let depth = r.range(10, 28);
+                    let mut t = String::from("def deep(n: int) -> int:\n");
+                    for d in 0..depth {
+                        t.push_str(&format!("{}if n > {d}:\n", "    ".repeat(d as usize + 1)));
+                    }
+                    t.push_str(&format!("{}return n\n    return 0\n", "    ".repeat(depth as usize + 1)));
+                    t
+                }
+            },
             6..=7 => {
                 let p = crate::c12::gen_program(r.next());
                 p.files.iter().find(|f| f.0 == p.entry).map(|f| f.1.clone()).unwrap_or_default()
